@@ -2,19 +2,22 @@
 
 Tie between coq/C12/Model.v and the real code:
 
-* a deterministic scheduler (one baton: only the thread holding it runs) drives real
-  threads against ONE WsgiApplication / protocol / memoize instance.  Switch points are
-  (a) every access to a shared variable of the model (hooks installed from outside:
-  attribute watchers on the WsgiApplication and Wsdl11 instances, recording dictionaries
-  for _attrcache and memoize.memo, a proxy around the XMLSchema validator, baton-aware
-  lock proxies) and (b) `sys.settrace` line/return events inside the shared-state code;
-* every run records the global sequence of shared accesses (thread, kind, values); the
-  Coq model replays the same sequence of thread identifiers and must produce exactly the
-  same accesses, values, blocking behaviour and per-thread results (correspondence);
-* the direct oracle compares what every caller received with what the same request gets
-  when it is processed alone on a fresh application (bytes for WSGI requests), counts the
-  executions of build_interface_document, and watches attribute writes to the shared
-  application / transport / protocol / interface objects.
+* harness/translate/conctext.py regenerates the access skeletons of the eight shared-state functions
+  (coq/Gen/ConcText.v); Props/C12.v proves that they are the skeletons the model mirrors and that on
+  every path through them the model's step function performs exactly those accesses;
+* a deterministic scheduler (one baton: only the thread holding it runs) drives real threads against
+  ONE pair of applications (SOAP 1.1 + lxml validation, JSON + soft validation) / protocol / memoize
+  instances.  Switch points are (a) every access to a shared variable of the model (hooks installed
+  from outside: attribute watchers on the WsgiApplication and Wsdl11 instances, recording dictionaries
+  for _attrcache, _sortcache and memoize.memo, a proxy around the XMLSchema validator, baton-aware lock
+  proxies) and (b) `sys.settrace` line/return events inside the shared-state code or all of spyne/;
+* every run records the global sequence of shared accesses (thread, kind, values); the Coq model
+  replays the same sequence of thread identifiers and must produce exactly the same accesses, values,
+  blocking behaviour and per-thread results (correspondence);
+* the direct oracle compares what every caller received (status, headers, body bytes) with what the
+  same request gets when it is processed alone on a fresh application, counts the executions of
+  build_interface_document, and watches attribute writes to the shared application / transport /
+  protocol / interface objects.
 """
 import os, sys, io, json, threading, itertools, weakref, hashlib, time
 import lib
@@ -80,6 +83,10 @@ class Sched(object):
     def record(self, code, a=0, b=0):
         t = self.me()
         if t is not None:
+            # values are integers by construction; anything else (a mutated implementation storing None or
+            # an object) is recorded as -7 so that the case is still printable and simply disagrees
+            a = a if isinstance(a, int) else -7
+            b = b if isinstance(b, int) else -7
             self.trace.append((t, code, a, b))
 
     def _handover(self, tid, kind):
@@ -427,7 +434,7 @@ class TracedMemo(dict):
         s = self.s
         if s.active and s.me() is not None:
             s.point('acc')
-            s.record(M_SET, self.kid(key), v)
+            s.record(M_SET, self.kid(key), enc_opt(v))
         dict.__setitem__(self, key, v)
 
     def get(self, key, d=None):
@@ -763,11 +770,12 @@ def call_wsgi(wsgi, r):
     def start_response(status, headers, exc_info=None):
         got['status'] = status
         got['ctype'] = dict((k.lower(), v) for k, v in headers).get('content-type')
+        got['headers'] = sorted('%s: %s' % (k.lower(), v) for k, v in headers)
     it = wsgi(env, start_response)
     data = b''.join(it)
     if hasattr(it, 'close'):
         it.close()
-    return (got.get('status'), got.get('ctype'), data)
+    return (got.get('status'), got.get('ctype'), data, got.get('headers'))
 
 
 def unit_body(w, sched, r):
@@ -775,8 +783,8 @@ def unit_body(w, sched, r):
     kind = r[0]
     if kind == 'wsdl':
         def f():
-            st, ct, data = call_wsgi(w.wsgi, r)
-            return ['wsdl', st, w.docid(data) if st.startswith('200') else -1, hashlib.md5(data).hexdigest()]
+            st, ct, data, hd = call_wsgi(w.wsgi, r)
+            return ['wsdl', st, w.docid(data) if st.startswith('200') else -1, hashlib.md5(data).hexdigest(), hd]
         return f
     if kind == 'attrs':
         def f():
@@ -826,8 +834,8 @@ def unit_body(w, sched, r):
         return None
     # any other descriptor: a full WSGI request
     def f():
-        st, ct, data = call_wsgi(w, r)
-        return ['http', st, ct, data.decode('utf8', 'replace')]
+        st, ct, data, hd = call_wsgi(w, r)
+        return ['http', st, ct, data.decode('utf8', 'replace'), hd]
     return f
 
 
@@ -840,10 +848,10 @@ def oracle_docs():
     if 'docs' not in _ORACLE:
         s = Sched(None)
         w = make_world(s, instrument=False)
-        st, ct, d0 = call_wsgi(w.wsgi, ['wsdl'])
-        st2, ct2, d0b = call_wsgi(w.wsgi, ['wsdl'])
+        st, ct, d0, _h1 = call_wsgi(w.wsgi, ['wsdl'])
+        st2, ct2, d0b, _h2 = call_wsgi(w.wsgi, ['wsdl'])
         w2 = make_world(s, instrument=False)
-        st3, ct3, d0c = call_wsgi(w2.wsgi, ['wsdl'])
+        st3, ct3, d0c, _h3 = call_wsgi(w2.wsgi, ['wsdl'])
         assert st.startswith('200') and d0 == d0b == d0c, 'sequential WSDL is not reproducible'
         w2.wsdl11.build_interface_document('http://%s/svc' % URL_HOST)
         d1 = w2.wsdl11.get_interface_document()
@@ -858,8 +866,8 @@ def alone(r):
         w = make_world(s, instrument=False)
         kind = r[0]
         if kind == 'wsdl':
-            st, ct, data = call_wsgi(w.wsgi, r)
-            res = ['wsdl', st, 0 if data == oracle_docs()[0] else 99, hashlib.md5(data).hexdigest()]
+            st, ct, data, hd = call_wsgi(w.wsgi, r)
+            res = ['wsdl', st, 0 if data == oracle_docs()[0] else 99, hashlib.md5(data).hexdigest(), hd]
         elif kind == 'attrs':
             def encval(k, attr):
                 return 10 * k + (1 if attr.get('sub_name') == 'c' else 0) + (2 if attr.get('min_len') == 7 else 0)
@@ -1013,6 +1021,9 @@ def judge(check, run):
                         % (i, 'the document of a second build (no portType/service)' if got[2] == 1 else
                            'status %s / a different document (md5 %s)' % (got[1], got[3])))
                 key = 'C12|wsdl|document-differs'
+                if got[:4] == exp[:4]:
+                    what = '?wsdl requester %d got the response headers %r; alone it gets %r' % (i, got[4], exp[4])
+                    key = 'C12|wsdl|headers-differ'
             elif r[0] == 'validate':
                 what = ('schema validation fault of thread %d carries %s instead of its own error text (%r)'
                         % (i, "the text 'None'" if got == ['fault', -1] else 'another request\'s error text (%r)' % (got,), exp))
@@ -1029,7 +1040,11 @@ def judge(check, run):
             else:
                 what = ('request %r (thread %d, racing with %s) got status %r body %r; alone it gets status %r body %r'
                         % (r, i, kinds, got[1], got[3][:300], exp[1], exp[3][:300]))
-                key = 'C12|http:%s|response-differs|%s' % (r[0], 'status' if got[1] != exp[1] else 'body')
+                key = 'C12|http:%s|response-differs|%s' % (r[0], 'status' if got[1] != exp[1] else
+                                                            'body' if got[3] != exp[3] else 'headers')
+                if got[1:4] == exp[1:4]:
+                    what = ('request %r (thread %d, racing with %s) got the response headers %r; alone it gets %r'
+                            % (r, i, kinds, got[4], exp[4]))
             fail(key, what)
     for (tid, cls, attr) in run['writes']:
         if (cls, attr) not in ALLOWED_WRITES:
@@ -1105,7 +1120,7 @@ def unit_scenarios(check, tier):
         [['sort', [2, 2]], ['sort', [2]]],
         [['sort', [3, 4]], ['sort', [4, 3]], ['attrs', [3]]],
     ]
-    n = 4 if tier == 'quick' else 40
+    n = 4 if tier == 'quick' else 20
     for _ in range(n):
         k = rng.randint(2, 4)
         s = []
@@ -1178,7 +1193,7 @@ def http_scenarios(check, tier):
         [['jbox', 'ann', 2], ['jbox', 'bob', 1]],
         [['jsum', 'ann', [1, 2]], ['jsq', -3], ['jbadtype', 4]],
     ]
-    n = 4 if tier == 'quick' else 40
+    n = 4 if tier == 'quick' else 20
     for i in range(n):
         k = rng.randint(2, 4)
         if i % 4 == 2:      # JSON application only
@@ -1204,30 +1219,51 @@ def handle(check, run, cases):
 def run(check):
     tier = check.tier
     quick = tier == 'quick'
-    check.rule = ('one evaluation = one deterministic interleaving of 2..4 real threads on one fresh WsgiApplication '
+    check.rule = ('one evaluation = one deterministic interleaving of 2..4 real threads on one fresh pair of applications '
+                  '(SOAP 1.1 with lxml schema validation; JSON with soft validation), each behind its own WsgiApplication '
                   '(scheduler with one baton; switch points at every access to a modelled shared variable and, in the '
                   'line-level passes, at every line/return event of the shared-state functions or of all of spyne/); '
-                  'systematic up to a preemption bound, then seeded random; distinct by (requests, global sequence of '
-                  'shared accesses with the values read and written)')
+                  'systematic up to a preemption bound (iterative context bounding), then seeded random; requests mix '
+                  '?wsdl fetches, distinct methods and arguments, faults raised by user code, schema / soft validation '
+                  'failures, unknown methods and unparsable bodies, plus unit-level calls of get_cls_attrs, sort_fields, '
+                  'a memoised function and validate_document; distinct by (requests, global sequence of shared accesses '
+                  'with the values read and written)')
     check.trusted = list(lib.COMMON_TRUSTED) + [
         'the deterministic scheduler and the access hooks of harness/c12.py (attribute watchers installed by swapping '
-        '__class__ of the WsgiApplication/Wsdl11 instances, recording dictionaries for _attrcache and memoize.memo, a '
-        'proxy around the XMLSchema object, baton-aware lock proxies): they are trusted to report every access to the '
-        'modelled shared variables in the order it happened',
+        '__class__ of the WsgiApplication/Wsdl11 instances, recording dictionaries for _attrcache, _sortcache and '
+        'memoize.memo, a proxy around the XMLSchema object, baton-aware lock proxies): they are trusted to report every '
+        'access to the modelled shared variables in the order it happened',
+        'harness/translate/conctext.py: what it accepts as a read / write / acquire / release / call of a modelled '
+        'shared variable in the eight functions, and its claim that no other function of the module assigns them; it '
+        'does not see aliasing, setattr/__dict__ writes or in-place mutation through other names',
         'CPython thread switching is modelled as: any interleaving of whole shared-variable accesses (finer than a '
         'source line; C extension calls such as lxml validate() and etree.tostring() are atomic steps)',
         'modelled, not verified: lxml XMLSchema.validate()/error_log, WeakKeyDictionary.get/__setitem__, dict '
-        '__contains__/get/__setitem__ as atomic reads/writes',
+        '__contains__/get/__setitem__ as atomic reads/writes; threading.Lock/RLock as mutual exclusion',
     ]
     check.assumptions = [
+        'proved (Coq, all schedules, any number of threads): the repaired double-checked lock builds once and every '
+        'requester gets the sequential document; _attrcache / _sortcache / memoize only ever hold and return the '
+        'sequential value; a schema-validation fault carries its own error text; mutual exclusion, no dead-lock, a '
+        'bounded number of steps per request, and hence every caller is served with its alone-response',
         'model scope: handle_wsdl_request + Wsdl11.get/build_interface_document (document identity abstracted to the '
-        'number of earlier builds), ProtocolBase.get_cls_attrs, memoize.__call__ (non re-entrant use), '
-        'XmlDocument.__validate_lxml; _sortcache, cdict fills, memoize_ignore_none and the rest of the request path are '
-        'covered by the end-to-end oracle under the scheduler, not by a theorem',
+        'number of earlier builds; the document is complete when __wsdl is assigned because that assignment is the '
+        'last statement of the build - checked by the translator), ProtocolBase.get_cls_attrs, ProtocolBase.sort_fields '
+        '(its value abstracted to a function of the class, which presupposes the complete attributes C12_attrs_transparent '
+        'gives), memoize.__call__ (non re-entrant use), XmlDocument.__validate_lxml; cdict.__getitem__ has its access '
+        'skeleton pinned by the translator (same lock-free check / compute-from-frozen-data / set shape as sort_fields) '
+        'but no separate transition system; memoize_ignore_none / memoize_ignore / memoize_first and the rest of the '
+        'request path are covered by the end-to-end oracle under the scheduler, not by a theorem',
         'that no other per-request datum is parked on a shared object is monitored (attribute writes to application, '
-        'interface, protocol, transport and document-builder instances during scheduled runs), not proved',
+        'interface, protocol, transport and document-builder instances during scheduled runs, plus byte-for-byte '
+        'comparison of status, headers and body with the alone-response), not proved; in-place mutation of dict / list '
+        'valued attributes of shared objects other than the modelled caches is seen only through the responses',
+        'a failing build_interface_document (wsdl_exception, HTTP 500) is not modelled',
         'validate() releases the GIL inside libxml2; interleavings inside C calls are out of reach of the scheduler '
-        '(the repaired code holds a lock across validate()+error_log, which covers them; the pinned code does not)',
+        '(the repaired code holds a lock across validate()+error_log, which covers them; the pinned code does not); '
+        'the lock belongs to the protocol instance: two protocol instances validating against the same Application '
+        'share the XMLSchema object but not the lock (not reachable from one WsgiApplication, whose requests all use '
+        'app.in_protocol)',
         'the URL of all concurrent ?wsdl requests is the same (the document embeds the URL of the first requester)',
     ]
     phase_t = {}
@@ -1282,7 +1318,7 @@ def run(check):
         bound = 2 if len(reqs) <= 2 else 1
         if not quick:
             bound += 1
-        budget = (110 if len(reqs) <= 2 else 60) if quick else 3000
+        budget = (110 if len(reqs) <= 2 else 60) if quick else (400 if len(reqs) <= 2 else 250)
         for r in explore(check, reqs, None, bound, budget):
             account(r, 'access_level')
             handle(check, r, cases)
@@ -1290,7 +1326,7 @@ def run(check):
     phase('access_level')
     # 2. line-granularity exploration (sys.settrace line+return events inside the shared-state code)
     for reqs in unit_scenarios(check, tier)[:N_FIXED_UNIT]:
-        budget = 30 if quick else 1500
+        budget = 30 if quick else 300
         for r in explore(check, reqs, LINE_FUNCS_SHARED, 1 if quick else 2, budget):
             account(r, 'line_level')
             handle(check, r, cases)
@@ -1298,12 +1334,12 @@ def run(check):
     phase('line_level')
     # 3. end-to-end WSGI requests (SOAP calls, faults, validation failures, ?wsdl) at line granularity
     for reqs in http_scenarios(check, tier):
-        budget = 18 if quick else 600
+        budget = 18 if quick else 100
         for r in explore(check, reqs, LINE_FUNCS_SHARED, 1 if quick else 2, budget):
             account(r, 'http')
             handle(check, r, cases)
         # randomized stress: switch points at EVERY line of every spyne/ function
-        for _ in range(4 if quick else 200):
+        for _ in range(4 if quick else 30):
             r = run_once(reqs, RandomChooser(check.rng, check.rng.choice([0.002, 0.01, 0.05])), 'ALL')
             r['lines'] = 'ALL'
             account(r, 'random_all_lines')
